@@ -580,6 +580,34 @@ func checkC04(c *Ctx) {
 			c.Check(early, "R2", "previous-round-heads-up-read-first", p.InstrPos(ci), "heads-up flag read before any seat moves", "the 'previous round was heads-up' flag is computed after seats have moved")
 		}
 	}
+	// … and it is a statement about the stored seat ids only (what the table looked like when the
+	// previous hand was dealt), not about who sits there now: heads-up ⇔ dealer seat = SB seat ∧ BB seat ≠ dealer seat
+	if hu := p.Method(smT, "IsHU"); hu != nil {
+		seat := func(s *Sym, w string) bool {
+			s = s.Strip()
+			return s.IsCall("seatManager.Current"+w+"SeatID") || s.IsField("seatManager", w+"SeatID")
+		}
+		okHU, why := checkBoolFunc(p, hu, func(g Guard) (string, bool, bool) {
+			cm := g.AsCmp()
+			if cm == nil || (cm.Op != token.EQL && cm.Op != token.NEQ) {
+				return "", false, false
+			}
+			l, r := cm.L, cm.R
+			for k := 0; k < 2; k++ {
+				if seat(l, "Dealer") && seat(r, "SB") {
+					return "dealer-is-sb", cm.Op == token.EQL, true
+				}
+				if seat(l, "BB") && seat(r, "Dealer") {
+					return "bb-is-dealer", cm.Op == token.EQL, true
+				}
+				l, r = r, l
+			}
+			return "", false, false
+		}, []string{"dealer-is-sb", "bb-is-dealer"}, func(a map[string]bool) bool { return a["dealer-is-sb"] && !a["bb-is-dealer"] })
+		c.Check(okHU, "R2", "heads-up-predicate:definition", p.Pos(hu.Pos()), "IsHU ≡ dealer seat = SB seat ∧ BB seat ≠ dealer seat (stored ids only)", "the 'previous round was heads-up' predicate is no longer a comparison of the stored seat ids: "+why)
+	} else {
+		c.Bad("R2", "heads-up-predicate:definition", "-", "heads-up predicate not found")
+	}
 	// remaining stores: short deck SB/BB = unset
 	for _, ss := range stores {
 		if matched[ss] {
